@@ -37,11 +37,13 @@ BOUNDS = {
                   variants_per_topology=2, group_size=20),
     "thorough": dict(max_modules=4, sources="as quick",
                      topologies="ALL wirings of <= 3 modules (as quick) with 4 variants each; wirings of 4 modules: ALL over the "
-                                "single source x with 2 variants each",
+                                "single source x with 2 variants each; in 4-module graphs only two of the Poly modules carry the "
+                                "product term (v0: first two, v1: last two), the others are affine (degree of the composition <= 4)",
                      variants="as quick, v2/v3 with other rotations",
                      seeds="as quick", variants_per_topology=4, group_size=40),
 }
-OUTSIDE = ["graphs with more modules than the bound; 4-module graphs over two sources",
+OUTSIDE = ["graphs with more modules than the bound; 4-module graphs over two sources; 4-module graphs in which more than two "
+           "Poly modules are non-linear (expansion of the degree-16 composition does not finish)",
            "cyclic graphs (not admissible)", "integer index arrays with repeated entries",
            "module outputs written through slices of a pre-allocated signal",
            "library modules other than EinSum/ConcatSignal/Scaling/MathGeneral inside the graphs (their own adjoints are C01)",
@@ -154,7 +156,13 @@ def make_graph(topo, tidx, variant, nsrc):
     if variant > 0:
         ranges = [(i, j) for i in range(M) for j in range(i + 1, M + 1)]
         nest = list(ranges[(tidx + variant) % len(ranges)])
-    return dict(nsrc=nsrc, mods=mods, nest=nest, lens=lens)
+    # Poly modules carrying the product term t*x_first[0]*x_last[-1] (state-dependent Jacobian).  With four
+    # modules the composed polynomial reaches degree 16 and its expansion does not finish (measured: one
+    # 4-chain of 1-input Poly modules 19 s, of 2-input Poly modules > 10 min), so 4-module graphs keep the
+    # product term in two modules only (v0: the first two, v1: the last two; degree <= 4) - the other Poly
+    # modules are affine.  Graphs with <= 3 modules keep it everywhere.
+    quad = list(range(M)) if M <= 3 else ([0, 1] if variant % 2 == 0 else [M - 2, M - 1])
+    return dict(nsrc=nsrc, mods=mods, nest=nest, lens=lens, quad=quad)
 
 
 def _graphs(tier):
@@ -175,7 +183,7 @@ def _graphs(tier):
     # identical graphs can arise when a variant changes nothing: keep the first
     seen, uniq = set(), []
     for g in out:
-        key = repr((g["nsrc"], g["mods"], g["nest"]))
+        key = repr((g["nsrc"], g["mods"], g["nest"], g["quad"]))
         if key not in seen:
             seen.add(key)
             uniq.append(g)
@@ -403,7 +411,7 @@ def make_coefs(V, g):
             cf = dict(c=[], A=[], t=[])
             for o, mo in enumerate(outl):
                 cf["c"].append([V.real("m%dc%d_%d" % (k, o, j)) for j in range(mo)])
-                cf["t"].append([V.real("m%dt%d_%d" % (k, o, j)) for j in range(mo)])
+                cf["t"].append([V.real("m%dt%d_%d" % (k, o, j)) if k in g["quad"] else 0 for j in range(mo)])
                 cf["A"].append([[[V.real("m%da%d%d_%d_%d" % (k, o, kk, j, i)) for i in range(n)] for j in range(mo)]
                                 for kk, n in enumerate(il)])
             coefs.append(cf)
